@@ -1,7 +1,7 @@
 (** C17 — Cached proofs are valid exactly while a justification survives.
     Statements only; proofs in Proofs/ProofGraphProofs.v.  The model is of the repaired code
     (fix: ec1ef45); the pre-repair witness is corpus/C17.cases. *)
-From RRE Require Import Base.Sx Model.ProofGraph Proofs.ProofGraphProofs.
+From RRE Require Import Base.Sx Model.ProofGraph Proofs.ProofGraphProofs Proofs.ProofGraphInvProofs.
 Open Scope N_scope.
 
 (** Re-proving an invalidated fact makes it valid again (whatever the earlier history). *)
@@ -27,9 +27,55 @@ Theorem C17_invalidate_self : forall g h n,
 Proof. exact invalidate_self_invalid. Qed.
 Print Assumptions C17_invalidate_self.
 
+(** THE INVARIANT, for every history of insertions and invalidations in which no insertion uses a currently
+    invalid cached proof as a premise ([wf_run]; dependents may be inserted before their premises, handles may be
+    re-proved): handles are unique, a valid cached proof has a justification left, every premise of every
+    remaining justification is recorded in the dependency index, and NO remaining justification of any cached
+    proof names an invalid cached proof ([bad [] ns q]: q is a node and not valid). *)
+Theorem C17_graph_invariant : forall ops, wf_run init ops ->
+  let g := exec init ops in
+  NoDup (map n_h (nodes g))
+  /\ (forall x n, find_node (nodes g) x = Some n -> n_valid n = true -> n_justs n <> [])
+  /\ (forall x n J q, find_node (nodes g) x = Some n -> In J (n_justs n) -> In q J -> In x (deps_of (deps g) q))
+  /\ (forall x n J q, find_node (nodes g) x = Some n -> In J (n_justs n) -> In q J -> bad [] (nodes g) q = false).
+Proof.
+  intros ops W g. pose proof (exec_Inv ops init Inv_init W) as HI. fold g in HI.
+  split; [apply HI|]. split; [apply (i_just g HI)|]. split; [apply (i_edges g HI)|].
+  intros x n J q F HJ Hq. destruct (bad [] (nodes g) q) eqn:E; [|reflexivity]. destruct (i_clean g HI x n J q F HJ Hq E).
+Qed.
+Print Assumptions C17_graph_invariant.
+
+(** EXACTNESS of one invalidation, on any graph satisfying the invariant (cycles, diamonds, several
+    justifications, any insertion order): afterwards every cached proof keeps exactly those of its
+    justifications none of whose premises is dead (the invalidated handle, or an invalid cached proof), and it
+    is valid exactly when it was valid, is not the invalidated handle, and keeps a justification. *)
+Theorem C17_invalidate_exact : forall g h, Inv g -> forall x n, find_node (nodes g) x = Some n ->
+  exists n', find_node (nodes (invalidate g h)) x = Some n'
+    /\ n_justs n' = filter (cleanb [h] (nodes (invalidate g h))) (n_justs n)
+    /\ n_valid n' = n_valid n && negb (N.eqb x h) && nonempty (n_justs n').
+Proof. exact invalidate_exact. Qed.
+Print Assumptions C17_invalidate_exact.
+
+(** MINIMALITY: the set of dead handles after the call is the LEAST set that contains h and the proofs that
+    were already invalid and is closed under "had justifications and each of them names a dead premise":
+    it is contained in every such set C (so a proof whose justification survives is never invalidated). *)
+Theorem C17_invalidate_minimal : forall g h (C : N -> Prop), Inv g -> C h ->
+  (forall q, bad [] (nodes g) q = true -> C q) ->
+  (forall x n, find_node (nodes g) x = Some n -> n_justs n <> [] -> (forall J, In J (n_justs n) -> exists q, In q J /\ C q) -> C x) ->
+  forall q, bad [h] (nodes (invalidate g h)) q = true -> C q.
+Proof. exact invalidate_minimal. Qed.
+Print Assumptions C17_invalidate_minimal.
+
+Theorem C17_invariant_kept : forall g o, Inv g -> op_ok g o -> Inv (fst (step g o)).
+Proof. exact step_Inv. Qed.
+Print Assumptions C17_invariant_kept.
+
 (** non-vacuity + the repaired witness: dependents inserted before their premises *)
 Example C17_example :
   let ops := [Insert 2 2 [1]; Insert 1 1 [0]; Invalidate 0; IsProven 2; Insert 1 1 []; IsProven 1] in
   map o_res (run 3 3 ops) = [true; true; true; false; true; true]
   /\ ok 3 3 ops (map enc_obs (run 3 3 ops)) = true.
 Proof. vm_compute. split; reflexivity. Qed.
+Example C17_example_wf :
+  wf_run init [Insert 2 2 [1]; Insert 1 1 [0]; Invalidate 0; IsProven 2; Insert 1 1 []; IsProven 1].
+Proof. cbn -[bad]. repeat split; try (intros p [<-|[]]; vm_compute; reflexivity); intros p []. Qed.
